@@ -13,7 +13,7 @@ type DataSpec struct {
 	Period int    `json:"period"`
 }
 
-var dataClasses = []string{"text", "uniform", "nearuniform", "fib", "alpha3", "runs", "period", "tokendense", "mixed", "zeros", "sparse"}
+var dataClasses = []string{"text", "uniform", "nearuniform", "fib", "alpha3", "runs", "period", "tokendense", "mixed", "zeros", "sparse", "dom50", "alpha4"}
 
 var words = []string{"the", "of", "and", "compression", "deflate", "window", "huffman", "stream", "a", "to", "in", "is", "that", "for", "block", "literal", "distance", "length", "code", "bits", "byte", "0123456789", "\n", ", ", ". ", "Intel", "fastgo", "golang"}
 
@@ -104,6 +104,25 @@ func (d DataSpec) Bytes() []byte {
 				b[i] = byte(r.Intn(256))
 				i++
 			}
+		}
+	case "dom50", "dom25":
+		// one byte value just over half (a quarter) of every 64 KiB, 128 KiB ... stretch,
+		// the rest spread over all other values: frequency counters near their wrap-around
+		share := 2
+		if d.Class == "dom25" {
+			share = 4
+		}
+		for i := range b {
+			b[i] = byte(1 + r.Intn(255))
+		}
+		k := n/share + 50
+		for _, i := range r.Perm(n)[:minInt(k, n)] {
+			b[i] = 0
+		}
+	case "alpha4":
+		// four letters with very short codes: several symbols per decoding-table entry
+		for i := range b {
+			b[i] = "abcd"[r.Intn(4)]
 		}
 	case "zeros":
 		// all zero
